@@ -96,11 +96,16 @@ ENT = ("(p.user_id == s.user_id and HA(process_unit, p.user_roles) and ("
        f" or (p.scope == {SCOPE}PROCESS_UNITS_WITH_RUNS_IVE_CONTRIBUTED_TO and any(c.id == p.user_id for c in process_unit.contributors))"
        f" or (p.scope == {SCOPE}SPECIFIC_PROCESS_UNITS and process_unit.engine_id in p.process_units)))")
 
+ENTU = ENT.replace("s.user_id", "u")
 get_for_topic = Contract(
     target=W + "_get_subscriptions_for_topic", types=dict(TYPES, webpush_repo="WebPushRepository"), raises={},
     calls={"webpush_repo.get_notification_preferences_for_topic": get_prefs, "webpush_repo.get_subscriptions": get_subs,
            "has_access": has_access_call},
-    ensures=[("every-returned-subscription-belongs-to-an-entitled-user",
+    ensures=[("lemma:access-list-holds-entitled-users", f"all(any({ENTU} for p in ghost('prefs')) for u in access)"),
+             ("lemma:contributed-list-holds-entitled-users", f"all(any({ENTU} for p in ghost('prefs')) for u in contributed)"),
+             ("lemma:specific-list-holds-entitled-users", f"all(any({ENTU} for p in ghost('prefs')) for u in specific)"),
+             ("lemma:queried-ids-are-entitled-users", f"all(any({ENTU} for p in ghost('prefs')) for u in ghost('ids'))"),
+             ("every-returned-subscription-belongs-to-an-entitled-user",
               f"all(any({ENT} for p in ghost('prefs')) for s in result)"),
              ("the-preferences-were-fetched-for-this-topic", "ghost('topic_arg') is topic"),
              ("rows-are-pairwise-distinct", "all(implies(i < j, result[i] is not result[j]) for i in range(len(result)) for j in range(len(result)))")])
@@ -125,11 +130,9 @@ def get_for_topic_call(ctx, args, kwargs):
 def post_webpush(ctx, args, kwargs):
     """self._post_webpush(subscription, repo, notification): ghost count of posts per subscription row"""
     st = ctx.st
-    arr = ctx.ghost["posted"].term
-    s = args[0].term
-    ctx.ghost["posted"] = SV(z3.Store(arr, s, z3.Select(arr, s) + 1), Ty("zarray"))
-    ctx.ghost["posted_notification_ok"] = z3.And(ctx.ghost.get("posted_notification_ok", z3.BoolVal(True)),
-                                                 args[2].term == ctx.local("notification").term)
+    r = RID(args[0].term)
+    st.write("ghost_posted", r, mk_int(IV(st.read("ghost_posted", r)) + 1))
+    ctx.check("the-notification-posted-is-the-one-published", args[2].term == ctx.local("notification").term, "call-site")
     return ctx.fresh("coro", None)
 
 
@@ -152,7 +155,6 @@ def with_scope(ctx, phase, kw):
 
 
 def ghost_init(ctx):
-    ctx.ghost["posted"] = SV(z3.K(Val, z3.IntVal(0)), Ty("zarray"))
     ctx.ghost["subs"] = ctx.new_list(elems=[], ty="list[WebPushSubscription]")
     ctx.ghost["topic_arg"] = ctx.local("topic")
     ctx.ghost["unit_arg"] = ctx.local("process_unit")
@@ -163,25 +165,29 @@ def now(ctx, args, kwargs):
     return ctx.fresh("now", "float")
 
 
-POSTED_INV = ["all(implies(j >= idx, ghost('posted')[subscriptions[j]] == 0) for j in range(len(subscriptions)))",
-              "all(ghost('posted')[subscriptions[j]] <= 1 for j in range(len(subscriptions)))",
-              "forall_objects('WebPushSubscription', lambda s: implies(ghost('posted')[s] > 0, any(subscriptions[j] is s for j in range(idx))))",
-              "forall_objects('WebPushSubscription', lambda s: implies(ghost('posted')[s] > 0 and topic is NotificationTopic.NEW_CONTRIBUTOR and notification.data is not None, s.user_id != notification.data.contributor_id))"]
+POSTED_INV = ["all(implies(j >= idx, subscriptions[j].ghost_posted == 0) for j in range(len(subscriptions)))",
+              "all(subscriptions[j].ghost_posted <= 1 for j in range(len(subscriptions)))",
+              "forall_objects('WebPushSubscription', lambda s: implies(s.ghost_posted > 0, any(subscriptions[j] is s for j in range(idx))))",
+              "forall_objects('WebPushSubscription', lambda s: implies(s.ghost_posted > 0 and topic is NotificationTopic.NEW_CONTRIBUTOR and notification.data is not None, s.user_id != notification.data.contributor_id))"]
 
 publish = Contract(
-    target=W + "publish_message", types=TYPES, raises=None, ghost_init=ghost_init,
+    target=W + "publish_message", types=dict(TYPES, **{"WebPushSubscription.ghost_posted": "int"}), raises=None, ghost_init=ghost_init,
+    requires=["forall_objects('WebPushSubscription', lambda s: s.ghost_posted == 0)"],
     calls={"self._get_subscriptions_for_topic": get_for_topic_call, "self._post_webpush": post_webpush,
            "asyncio.create_task": passthrough, "asyncio.gather": opaque, "with database.create_scope()": with_scope,
            "database.scoped_session": opaque, "WebPushRepository": opaque, "time.time": now},
     ensures=[("only-rows-returned-for-the-topic-and-unit-are-posted",
-              "forall_objects('WebPushSubscription', lambda s: implies(ghost('posted')[s] > 0, any(x is s for x in ghost('subs'))))"),
+              "forall_objects('WebPushSubscription', lambda s: implies(s.ghost_posted > 0, any(x is s for x in ghost('subs'))))"),
              ("the-rows-were-selected-for-this-topic-and-unit", "ghost('topic_arg') is topic and ghost('unit_arg') is process_unit"),
-             ("each-subscription-is-posted-at-most-once", "forall_objects('WebPushSubscription', lambda s: ghost('posted')[s] <= 1)"),
+             ("each-subscription-is-posted-at-most-once", "forall_objects('WebPushSubscription', lambda s: s.ghost_posted <= 1)"),
              ("a-new-contributor-notification-never-goes-to-the-contributor-it-is-about",
-              "forall_objects('WebPushSubscription', lambda s: implies(ghost('posted')[s] > 0 and topic is NotificationTopic.NEW_CONTRIBUTOR "
+              "forall_objects('WebPushSubscription', lambda s: implies(s.ghost_posted > 0 and topic is NotificationTopic.NEW_CONTRIBUTOR "
               "and notification.data is not None, s.user_id != notification.data.contributor_id))")],
     loops={"for subscription in subscriptions": LoopSpec(invariant=POSTED_INV)})
 
+for _h in (get_prefs, get_subs, has_access_call, get_for_topic_call, post_webpush, opaque, passthrough, now):
+    _h.modifies = []       # none of the assumed calls writes a field the contracts read
+post_webpush.modifies = ["ghost_posted"]
 CONTRACTS = [has_access, get_for_topic, publish]
 TARGETS = [c.key for c in CONTRACTS]
 TRUSTED = ["WebPushRepository.get_notification_preferences_for_topic returns the preference rows whose topics contain the topic (SQL JSON contains)",
@@ -193,3 +199,35 @@ CLAUSES = {"sent only to subscribers whose recorded roles grant access and whose
            "each subscription is notified at most once": "(c) loop invariant over pairwise distinct rows",
            "a new-contributor notification never goes to the contributor it is about": "(c)"}
 EXPLANATION = "Three function contracts; the entitlement predicate is a postcondition with an existential over the fetched preference rows."
+
+
+def replay(obligation, witness):
+    """Native oracle: the real methods against an in-memory repository / recording sender over an exhaustive small domain."""
+    import contracts.c33_native as n
+    if "has_access" in obligation:
+        r = n.check_has_access()
+    elif "publish_message" in obligation:
+        r = n.check_publish()
+        if not r["violated"]:
+            r = n.check_get_subscriptions()
+    else:
+        r = n.check_get_subscriptions()
+        if not r["violated"]:
+            r = n.check_publish()
+    return {"confirmed": bool(r["violated"]), **r}
+
+
+REPLAY_WITHOUT_WITNESS = True
+
+
+def _nat(fn):
+    def run():
+        import contracts.c33_native as n
+        r = getattr(n, fn)()
+        return {"ok": not r["violated"], "observation": r}
+    return run
+
+
+NATIVE = [("native:selection-over-exhaustive-small-domain", _nat("check_get_subscriptions")),
+          ("native:publish-over-small-domain", _nat("check_publish"))]
+BOUNDED = ["native scenarios (2 users, 3 scopes, 2 role sets, 3 required-role sets, all contributor subsets): bounded cross-check of the contracts' reading of the code, never counted as proved"]
